@@ -53,7 +53,7 @@ func CertsTLCP(ident string) []tlcp.Certificate {
 func BuildTLCP(e EPConfig, reg *Registry) *tlcp.Config {
 	p := GetPKI()
 	c := &tlcp.Config{
-		Time:               func() time.Time { return Now().AddDate(e.TimeShiftYears, 0, 0) },
+		Time:               func() time.Time { return e.Clock() },
 		Certificates:       CertsTLCP(e.Ident),
 		NextProtos:         e.ALPN,
 		ServerName:         e.ServerName,
@@ -68,6 +68,8 @@ func BuildTLCP(e EPConfig, reg *Registry) *tlcp.Config {
 		c.RootCAs, c.ClientCAs = p.CA.Pool, p.CA.Pool
 	case "other":
 		c.RootCAs, c.ClientCAs = p.OtherCA.Pool, p.OtherCA.Pool
+	case "rootcas-only": // trust store for the servers this endpoint connects to, none for client certificates
+		c.RootCAs = p.CA.Pool
 	case "none":
 	}
 	if e.RandSeed != 0 {
